@@ -175,14 +175,14 @@ impl Man {
             self._render_authors_section(&mut roff);
         }
 
-        roff.to_writer(w)
+        write_roff(&roff, w)
     }
 
     /// Render the title into the writer.
     pub fn render_title(&self, w: &mut dyn Write) -> Result<(), std::io::Error> {
         let mut roff = Roff::default();
         self._render_title(&mut roff);
-        roff.to_writer(w)
+        write_roff(&roff, w)
     }
 
     fn _render_title(&self, roff: &mut Roff) {
@@ -204,7 +204,7 @@ impl Man {
     pub fn render_name_section(&self, w: &mut dyn Write) -> Result<(), std::io::Error> {
         let mut roff = Roff::default();
         self._render_name_section(&mut roff);
-        roff.to_writer(w)
+        write_roff(&roff, w)
     }
 
     fn _render_name_section(&self, roff: &mut Roff) {
@@ -216,7 +216,7 @@ impl Man {
     pub fn render_synopsis_section(&self, w: &mut dyn Write) -> Result<(), std::io::Error> {
         let mut roff = Roff::default();
         self._render_synopsis_section(&mut roff);
-        roff.to_writer(w)
+        write_roff(&roff, w)
     }
 
     fn _render_synopsis_section(&self, roff: &mut Roff) {
@@ -228,7 +228,7 @@ impl Man {
     pub fn render_description_section(&self, w: &mut dyn Write) -> Result<(), std::io::Error> {
         let mut roff = Roff::default();
         self._render_description_section(&mut roff);
-        roff.to_writer(w)
+        write_roff(&roff, w)
     }
 
     fn _render_description_section(&self, roff: &mut Roff) {
@@ -240,7 +240,7 @@ impl Man {
     pub fn render_options_section(&self, w: &mut dyn Write) -> Result<(), std::io::Error> {
         let mut roff = Roff::default();
         self._render_options_section(&mut roff);
-        roff.to_writer(w)
+        write_roff(&roff, w)
     }
 
     fn _render_options_section(&self, roff: &mut Roff) {
@@ -283,7 +283,7 @@ impl Man {
     pub fn render_subcommands_section(&self, w: &mut dyn Write) -> Result<(), std::io::Error> {
         let mut roff = Roff::default();
         self._render_subcommands_section(&mut roff);
-        roff.to_writer(w)
+        write_roff(&roff, w)
     }
 
     fn _render_subcommands_section(&self, roff: &mut Roff) {
@@ -296,7 +296,7 @@ impl Man {
     pub fn render_extra_section(&self, w: &mut dyn Write) -> Result<(), std::io::Error> {
         let mut roff = Roff::default();
         self._render_extra_section(&mut roff);
-        roff.to_writer(w)
+        write_roff(&roff, w)
     }
 
     fn _render_extra_section(&self, roff: &mut Roff) {
@@ -308,7 +308,7 @@ impl Man {
     pub fn render_version_section(&self, w: &mut dyn Write) -> Result<(), std::io::Error> {
         let mut roff = Roff::default();
         self._render_version_section(&mut roff);
-        roff.to_writer(w)
+        write_roff(&roff, w)
     }
 
     fn _render_version_section(&self, roff: &mut Roff) {
@@ -321,7 +321,7 @@ impl Man {
     pub fn render_authors_section(&self, w: &mut dyn Write) -> Result<(), std::io::Error> {
         let mut roff = Roff::default();
         self._render_authors_section(&mut roff);
-        roff.to_writer(w)
+        write_roff(&roff, w)
     }
 
     fn _render_authors_section(&self, roff: &mut Roff) {
@@ -329,6 +329,14 @@ impl Man {
         roff.control("SH", ["AUTHORS"]);
         roff.text([author]);
     }
+}
+
+// Render into memory first: `Roff::to_writer` unwraps some of its writes and would panic on
+// a failing writer, and the caller gets one `write_all` instead of hundreds of tiny writes.
+fn write_roff(roff: &Roff, w: &mut dyn Write) -> Result<(), std::io::Error> {
+    let mut buf = Vec::new();
+    roff.to_writer(&mut buf)?;
+    w.write_all(&buf)
 }
 
 // Does the application have a version?
